@@ -103,16 +103,16 @@ SPEC = dict(
         dict(name='store_error', harness='h_store_error', enforce='receiver_store_error'),
         dict(name='lemma_rely_guarantee', harness='lemma_rely_guarantee', mode='lemma'),
         dict(name='lemma_init', harness='lemma_init', mode='lemma'),
-        dict(name='lemma_interleavings', harness='lemma_interleavings', mode='lemma'),
+        dict(name='lemma_interleavings', harness='lemma_interleavings', mode='lemma', solver='cadical'),
         # the stop callback's lifetime as the templates implement it (registered at connect, deregistered when the future's op state dies):
         # exposes abandon() on freed state and drop() reaching std::terminate()
-        dict(name='lemma_interleavings_callback_lifetime_as_coded', harness='lemma_interleavings', mode='lemma', defines=['VF_STOP_CALLBACK_LIFETIME_AS_CODED']),
+        dict(name='lemma_interleavings_callback_lifetime_as_coded', harness='lemma_interleavings', mode='lemma', solver='cadical', defines=['VF_STOP_CALLBACK_LIFETIME_AS_CODED']),
     ],
     assumptions=[
         'each party calls its entry points once, as the templates around them do: the spawned operation calls complete() once; a future is either dropped (drop(), never started) or started (continuation runs once after evt_ fires); abandon() runs at most once (inplace_stop_callback, C03)',
-        'abandon() runs only while the future is started and its continuation has not yet deleted the shared state (the stop callback is in fact registered at connect time and outlives the continuation: see the report; not discharged here)',
-        'drop() is not raced by abandon(): a connected-but-never-started future that received a stop request is not covered (drop() would find abandoned/complete and reach std::terminate)',
-        'unit drop assumes the value-storing callback of set_value does not throw (no value->error store between complete()\'s CAS and evt_.set())',
+        'all units except lemma_interleavings_callback_lifetime_as_coded: abandon() runs only while the future is started and its continuation has not yet deleted the shared state. As coded the stop callback is registered at connect (let_value_with builds its state in the operation constructor) and outlives the continuation; the as-coded lemma lifts this assumption and fails (abandon() on freed state: confirmed natively with ASan)',
+        'all units except lemma_interleavings_callback_lifetime_as_coded: drop() is not preceded by abandon() (a connected-but-never-started future that received a stop request makes drop() find abandoned/complete and reach std::terminate: confirmed natively; the as-coded lemma fails on it)',
+        'unit drop assumes the value-storing callback of set_value does not throw (no value->error store between complete()\'s CAS and evt_.set()); unit drop_value_store_throws lifts it and fails (stale state handed to deleter: confirmed natively)',
         'async_manual_reset_event: set() makes ready() true and wakes the waiter, does not touch the event after waking it (C16); evt_.ready()/set() are event stubs',
         'the spin in drop() is proved partially correct only (the operation eventually calls evt_.set())',
         'allocator round-trip in deleter (copy allocator, destroy, deallocate) are event stubs; allocator semantics (C12) not reached',
